@@ -42,6 +42,12 @@
       comparison the code makes against it has the same outcome while allocations stay
       within capacity.
 
+    - SIZE CONSISTENCY (last section): the size by which the gate counts a pending job
+      (api/podgroup_info/allocation_info.go GetTasksToAllocateInitResource, handed to the gate by
+      plugins/proportion/proportion.go buildReclaimerInfo) as a parameter [gate_size] of [reclaim_ok_sized], against
+      the size a slot holder is charged (api/node_info/node_info.go setAcceptedResources; proportion's allocate
+      handler) = [charged_size] = [p_sz]; hypotheses [size_consistent] / [never_undercounted].
+
     Left out: consolidation (never applicable in the class: any pending job fits any free
     slot), gangs / several pods per job, several resources, more than two queue levels,
     queue limits, non-preemptible jobs, min-runtime protection, node placement
@@ -510,3 +516,93 @@ Definition ordered_system (m : Z * Z) (o : order_fn) (js : jobs_fn) (p : params)
   cs_cycle := fun s s' => s' = allocate o p s \/ exists j v, reclaim_sim m o js p (allocate o p s) j v = Some s';
   cs_evicts := fun s s' => exists j v, reclaim_sim m o js p (allocate o p s) j v = Some s';
 |}.
+
+(** * SIZE CONSISTENCY: the size a pending job is COUNTED by vs the size it is CHARGED once it runs *)
+(** The reclaim gate does not look at what a job will occupy; it looks at a figure computed for the PENDING job:
+    podgroup_info.GetTasksToAllocateInitResource (api/podgroup_info/allocation_info.go), which
+    proportion.buildReclaimerInfo puts in ReclaimerInfo.RequiredResources - read by
+    reclaimable.CanReclaimResources (allocated + required <= fairShare), by GuaranteeDeservedQuotaStrategy
+    (allocated + required <= deserved) and by the saturation rule (reclaimer's ratio = (allocated + required) /
+    fairShare).  Once the job holds its slot the queue is charged something else: the pod's AcceptedResource
+    (node_info.setAcceptedResources; proportion's allocate handler and updateQueuesCurrentResourceUsage), which is
+    also what a victim gives back (getVictimResources).  For whole-GPU and gpu-fraction pods the two figures are the
+    same function of the request; for a gpu-memory request on N devices the first is
+    N * memory / minNodeGPUMemory (three lines of allocation_info.go), the second N * ceil(memory / deviceMemory).
+
+    In [reclaim_ok] both figures are the one constant [p_sz]: the class has EQUAL sizes, and that the gate uses the
+    size the job is charged is built in.  Here the hypothesis is made explicit: [gate_size g j] is the size by
+    which the gate counts the pending job [j]; [charged_size p j] the size [j] is charged while it holds a slot (in
+    the class: [p_sz p], every slot holder counts [p_sz p] in [aq] / [ad]).
+      [size_consistent p g]    gate_size j = charged_size j                  (the code as it is, one device memory)
+      [never_undercounted p g] charged_size j <= gate_size j                 (devices of different memories: the gate
+                                                                              divides by the SMALLEST device memory)
+    [reclaim_ok_sized] is [reclaim_ok] with every occurrence of the RECLAIMER's size replaced by [gate_size g j];
+    the victim's size (what the eviction gives back) stays the charged one. *)
+Definition sizing := id -> Z.
+Definition gate_size (g : sizing) (j : id) : Z := g j.
+Definition charged_size (p : params) (j : id) : Z := p_sz p.
+
+Definition size_consistent (p : params) (g : sizing) : Prop :=
+  forall j, In j (map j_id (p_jobs p)) -> gate_size g j = charged_size p j.
+Definition never_undercounted (p : params) (g : sizing) : Prop :=
+  forall j, In j (map j_id (p_jobs p)) -> charged_size p j <= gate_size g j.
+
+(** isFairShareSaturationLowerPerResource with the reclaimer counted by [gz] and the victim giving back [cz] *)
+Definition saturation_ok_sized (mn md gz cz ar Fr ae Fe : Z) : bool :=
+  let x := ar + gz in
+  let y := ae - cz in
+  negb ((Fr <? x) && (0 <? Fe) &&
+        (if Fr =? 0 then true else (y * Fr * md <=? x * mn * Fe))).
+
+Definition reclaim_ok_sized (g : sizing) (m : Z * Z) (p : params) (s : state) (j v : id) : bool :=
+  match find_job (p_jobs p) j, find_job (p_jobs p) v with
+  | Some J, Some V =>
+      match find_queue (p_queues p) (j_queue J), find_queue (p_queues p) (j_queue V) with
+      | Some Q, Some Q' =>
+          negb (mem j s) && mem v s && negb (Pos.eqb (q_id Q) (q_id Q'))
+          && (aq p s (q_id Q) + gate_size g j <=? q_fair Q)
+          && (if Pos.eqb (q_dept Q) (q_dept Q')
+              then fits_strategy (gate_size g j) (aq p s (q_id Q)) (q_des Q)
+                                 (aq p s (q_id Q')) (q_fair Q') (q_des Q')
+              else match find_dept (p_depts p) (q_dept Q), find_dept (p_depts p) (q_dept Q') with
+                   | Some P, Some P' =>
+                       fits_strategy (gate_size g j) (ad p s (d_id P)) (d_des P)
+                                     (ad p s (d_id P')) (d_fair P') (d_des P')
+                       && saturation_ok_sized (fst m) (snd m) (gate_size g j) (charged_size p v)
+                                              (ad p s (d_id P)) (d_fair P) (ad p s (d_id P')) (d_fair P')
+                   | _, _ => false
+                   end)
+      | _, _ => false
+      end
+  | _, _ => false
+  end.
+
+(** decisions, runs and the solver's simulated reclaim with the gate counting by [g]; everything else - what a slot
+    holder is charged, allocation, preemption, the effect of an eviction - as in the class *)
+Definition apply_sized (g : sizing) (m : Z * Z) (p : params) (s : state) (d : decision) : option state :=
+  match d with
+  | DBind j => if bind_ok p s j then Some (j :: s) else None
+  | DReclaim j v => if reclaim_ok_sized g m p s j v then Some (j :: remove1 v s) else None
+  | DPreempt j v => if preempt_ok p s j v then Some (j :: remove1 v s) else None
+  end.
+Fixpoint run_sized (g : sizing) (m : Z * Z) (p : params) (s : state) (ds : list decision) : option state :=
+  match ds with
+  | [] => Some s
+  | d :: r => match apply_sized g m p s d with Some s' => run_sized g m p s' r | None => None end
+  end.
+Definition sized_system (g : sizing) (m : Z * Z) (p : params) : closed_system := {|
+  cs_state := state;
+  cs_cycle := fun s s' => within_cap p s /\ exists ds, run_sized g m p s ds = Some s';
+  cs_evicts := fun s s' => exists ds, run_sized g m p s ds = Some s' /\ evicting_cycle ds = true;
+|}.
+Definition reclaim_sim_sized (g : sizing) (m : Z * Z) (o : order_fn) (js : jobs_fn) (p : params) (s : state) (j v : id)
+  : option state :=
+  if reclaim_ok_sized g m p s j v then
+    let s' := remove1 v s in
+    let sim := simulate o js p s' j v in
+    if mem j sim && negb (mem v sim) then Some s' else None
+  else None.
+
+(** seeded change C15-3: a request on [n] devices is counted as the request on one device *)
+Definition undercounted_by (n : Z) (p : params) (g : sizing) : Prop :=
+  1 < n /\ forall j, In j (map j_id (p_jobs p)) -> gate_size g j * n = charged_size p j.
